@@ -396,6 +396,9 @@ theorem C11_command_along (fuel : Nat) (c : Cmd) (hc : Cmd.isRun c = true) (s s'
   | restart => cases hc
   | goto pc => cases hc
   | flag w v => cases hc
+  | assignReg i v => cases hc
+  | assignMem a v => cases hc
+  | assignPc v => cases hc
 
 theorem runCmds_along (fuel : Nat) (cmds : List Cmd) (hc : ∀ c ∈ cmds, Cmd.isRun c = true) (s s' : State) (hwf : WF s.vm)
     (h : runCmds dp fuel cmds s = .ok (some s')) : Along dp.p s.vm s'.vm ∧ WF s'.vm := by
